@@ -6,6 +6,7 @@
 from typing import List, Set, Tuple, Dict
 from natsort import natsorted
 import collections
+from functools import partial
 import os
 
 from . import lpinterface
@@ -54,7 +55,7 @@ def estimate_minor(
     mutations |= gene.random_mutations
 
     # Filter out low quality mutations
-    def default_filter_fn(cov, mut):
+    def default_filter_fn(cn_solution, cov, mut):
         # TODO: is this necessary?
         r = gene.region_at(mut.pos)
         if mut.op not in ["_", "-"] and not (
@@ -66,12 +67,17 @@ def estimate_minor(
         cond = cov.basic_filter(mut, cn=coverage.profile.cn_max)
         if mut.op != "_":
             cond = cond and cov.basic_filter(
-                mut, cn=major_sol.cn_solution.position_cn(mut.pos) + 0.5
+                mut, cn=cn_solution.position_cn(mut.pos) + 0.5
             )
         return cond
 
-    cov = coverage.filtered(Coverage.quality_filter)
-    cov = cov.filtered(default_filter_fn)
+    qual_cov = coverage.filtered(Coverage.quality_filter)
+    # Each gene structure has its own noise thresholds (copies present at a site)
+    cn_covs = {
+        m.cn_solution: qual_cov.filtered(partial(default_filter_fn, m.cn_solution))
+        for m in major_sols
+    }
+    cov = cn_covs[major_sols[-1].cn_solution]
 
     if novel:
         for pos, c in cov._coverage.items():
@@ -93,11 +99,11 @@ def estimate_minor(
     for c in sorted(cn_sols, key=lambda x: x._solution_nice()):
         log.debug("*" * 80)
         majors = [m for m in major_sols if m.cn_solution == c]
-        _print_candidates(gene, alleles, c, cov, mutations)
+        _print_candidates(gene, alleles, c, cn_covs[c], mutations)
         for major_sol in natsorted(majors, key=lambda s: str(s.solution)):
             sols = solve_minor_model(
                 gene,
-                cov,
+                cn_covs[c],
                 major_sol,
                 alleles,
                 mutations,
